@@ -320,6 +320,37 @@ Proof.
       * exfalso. apply Hn. rewrite H. apply in_or_app. right. left. reflexivity.
 Qed.
 
+(* for EVERY codec subtype: the accepted values are application/grpc+<subtype> (subtype not empty) and,
+   when the subtype is the default one ("proto"), also application/grpc and application/grpc+ *)
+Lemma ct_value_ok_all_subtypes csub v :
+  ct_value_ok csub v = true <->
+  (csub = proto_content_subtype /\ (v = grpc_content_type \/ v = grpc_content_type ++ [43]))
+  \/ (csub <> [] /\ v = grpc_content_type ++ 43 :: csub).
+Proof.
+  unfold ct_value_ok. pose proof (partition_plus_spec v) as Hs.
+  destruct (partition_plus v) as [base [sub|]].
+  - destruct Hs as [-> Hn]. split.
+    + intros H. apply andb_true_iff in H as [H1 H2]. apply zlist_eqb_true in H1. subst base.
+      destruct sub as [|x r].
+      * apply zlist_eqb_true in H2. left. split; [symmetry; exact H2|]. right. reflexivity.
+      * apply zlist_eqb_true in H2. right. split; [rewrite <- H2; discriminate|]. rewrite H2. reflexivity.
+    + intros [[Hc [H|H]]|[Hc H]].
+      * exfalso. apply grpc_ct_no_plus. rewrite <- H. apply in_or_app. right. left. reflexivity.
+      * assert (Hp := partition_plus_app grpc_content_type [] grpc_ct_no_plus).
+        assert (Hq := partition_plus_app base sub Hn). rewrite H in Hq. rewrite Hp in Hq.
+        injection Hq as <- <-. subst csub. rewrite !zlist_eqb_refl. reflexivity.
+      * assert (Hp := partition_plus_app grpc_content_type csub grpc_ct_no_plus).
+        assert (Hq := partition_plus_app base sub Hn). rewrite H in Hq. rewrite Hp in Hq.
+        injection Hq as <- <-. destruct csub as [|x r]; [contradiction|]. rewrite !zlist_eqb_refl. reflexivity.
+  - destruct Hs as [-> Hn]. split.
+    + intros H. apply andb_true_iff in H as [H1 H2]. apply zlist_eqb_true in H1. apply zlist_eqb_true in H2.
+      left. split; [symmetry; exact H2|]. left. exact H1.
+    + intros [[Hc [H|H]]|[Hc H]].
+      * subst. rewrite !zlist_eqb_refl. reflexivity.
+      * exfalso. apply Hn. rewrite H. apply in_or_app. right. left. reflexivity.
+      * exfalso. apply Hn. rewrite H. apply in_or_app. right. left. reflexivity.
+Qed.
+
 (* ---- what the source says (Gen.FactsC02 is regenerated from /repo on every run) ---- *)
 Lemma source_facts :
   grpc_content_type = s2z "application/grpc" /\ proto_content_subtype = s2z "proto" /\
@@ -381,25 +412,17 @@ Proof.
   apply in_flat_map. exists es. split; [exact Hes|]. apply in_flat_map. exists c. split; assumption.
 Qed.
 
-Definition triggers_of (k : kind) : list trigger :=
-  match k with Call _ _ => [TB] | Open _ _ p => step_triggers (List.length p) end.
-Lemma cases_of_eq maxd k : cases_of maxd k = all_scripts maxd (triggers_of k).
-Proof. destruct k; reflexivity. Qed.
-
-Definition all_kinds : list kind := call_kinds ++ open_kinds.
-
-Definition forall_cases (maxd : nat) (ks : list kind) (P : kind -> list batch -> bool) : bool :=
-  forallb (fun k => forall_scripts maxd (triggers_of k) (P k)) ks.
-Lemma forall_cases_sound maxd ks P :
-  forall_cases maxd ks P = true ->
-  forall k bs, In k ks -> In bs (cases_of maxd k) -> P k bs = true.
+Definition forall_cases (cs : list config) (P : listeners -> kind -> list batch -> bool) : bool :=
+  forallb (fun c => let '(lis, k, m) := c in forall_scripts m (triggers_of c) (P lis k)) cs.
+Lemma forall_cases_sound cs P :
+  forall_cases cs P = true ->
+  forall lis k m bs, In (lis, k, m) cs -> In bs (cases_of (lis, k, m)) -> P lis k bs = true.
 Proof.
-  unfold forall_cases. intros H k bs Hk Hbs. rewrite forallb_forall in H. specialize (H k Hk).
-  rewrite cases_of_eq in Hbs. exact (forall_scripts_sound _ _ _ H bs Hbs).
+  unfold forall_cases. intros H lis k m bs Hk Hbs. rewrite forallb_forall in H. specialize (H _ Hk).
+  cbv beta iota in H. unfold cases_of in Hbs. exact (forall_scripts_sound _ _ _ H bs Hbs).
 Qed.
 
-(* ---- the checks, evaluated once on every cell ---- *)
-(* every check takes the outcome r = outcome k bs as an argument, so that it is computed once per cell *)
+(* every check takes the outcome r = outcome lis k bs as an argument, so that it is computed once per cell *)
 Definition chk_table (k : kind) (bs : list batch) (r : result) : bool := defect k bs || spec_allows bs r.
 Definition chk_ok (k : kind) (bs : list batch) (r : result) : bool :=
   match r with ROk _ => status_ok_received bs | _ => true end.
@@ -473,19 +496,21 @@ Definition checks (k : kind) (bs : list batch) (r : result) : bool :=
   wf_script bs && chk_row_missing_status k bs r
   && chk_table k bs r && chk_ok k bs r && chk_hang k bs r && chk_exc k bs r
   && chk_row_non200 k bs r && chk_row_server k bs r && chk_row_nothing k bs r && chk_row_success k bs r.
-Definition all_checks (k : kind) (bs : list batch) : bool := checks k bs (outcome k bs).
+Definition all_checks (lis : listeners) (k : kind) (bs : list batch) : bool := checks k bs (outcome lis k bs).
 
-Lemma open_cardinality_irrelevant cs ss cs' ss' p bs :
-  outcome (Open cs ss p) bs = outcome (Open cs' ss' p) bs /\
+Lemma open_cardinality_irrelevant lis cs ss cs' ss' p bs :
+  outcome lis (Open cs ss p) bs = outcome lis (Open cs' ss' p) bs /\
   defect (Open cs ss p) bs = defect (Open cs' ss' p) bs.
 Proof. split; reflexivity. Qed.
 
-(* THE enumeration: 4 __call__ kinds and 8 open() bodies, every layout
+(* THE enumeration (Model/ClientCall.v: configs): the 4 __call__ kinds and 8 open() bodies, (a) without
+   listeners, up to 2 messages, (b) with suspending listeners on all three receive events, up to 1
+   message and the extra trigger TL (delivery during a listener suspension); every layout
    with up to 2 messages, every cut, every split point, both batchings, every trigger *)
-Lemma domain_checked : forall_cases 2 all_kinds all_checks = true.
+Lemma domain_checked : forall_cases configs all_checks = true.
 Proof. vm_cast_no_check (eq_refl true). Qed.
 
-Lemma domain k bs : In k all_kinds -> In bs (cases_of 2 k) -> all_checks k bs = true.
+Lemma domain lis k m bs : In (lis, k, m) configs -> In bs (cases_of (lis, k, m)) -> all_checks lis k bs = true.
 Proof. apply forall_cases_sound. exact domain_checked. Qed.
 
 Ltac split_checks H :=
@@ -494,52 +519,52 @@ Ltac split_checks H :=
 (* ---- the theorems read off the enumeration ---- *)
 
 (* every cell of the table, outside the three recorded defect classes *)
-Lemma table_partial k bs :
-  In k all_kinds -> In bs (cases_of 2 k) -> defect k bs = false ->
-  spec_allows bs (outcome k bs) = true.
+Lemma table_partial lis k m bs :
+  In (lis, k, m) configs -> In bs (cases_of (lis, k, m)) -> defect k bs = false ->
+  spec_allows bs (outcome lis k bs) = true.
 Proof.
-  intros Hk Hbs Hd. pose proof (domain k bs Hk Hbs) as H. split_checks H.
+  intros Hk Hbs Hd. pose proof (domain lis k m bs Hk Hbs) as H. split_checks H.
   unfold chk_table in Hc6. rewrite Hd in Hc6. exact Hc6.
 Qed.
 
 (* success only on grpc-status OK on an acceptable response: full strength, every kind *)
-Lemma ok_sound k bs n :
-  In k all_kinds -> In bs (cases_of 2 k) -> outcome k bs = ROk n ->
+Lemma ok_sound lis k m bs n :
+  In (lis, k, m) configs -> In bs (cases_of (lis, k, m)) -> outcome lis k bs = ROk n ->
   status_ok_received bs = true.
 Proof.
-  intros Hk Hbs Ho. pose proof (domain k bs Hk Hbs) as H. split_checks H.
+  intros Hk Hbs Ho. pose proof (domain lis k m bs Hk Hbs) as H. split_checks H.
   unfold chk_ok in Hc5. rewrite Ho in Hc5. exact Hc5.
 Qed.
 
 (* the call finishes whenever the script ends in END_STREAM or a cut *)
-Lemma no_hang_enumerated k bs :
-  In k all_kinds -> In bs (cases_of 2 k) ->
+Lemma no_hang_enumerated lis k m bs :
+  In (lis, k, m) configs -> In bs (cases_of (lis, k, m)) ->
   ev_ended (events bs) || ev_cut (events bs) false = true ->
-  outcome k bs <> RHang.
+  outcome lis k bs <> RHang.
 Proof.
-  intros Hk Hbs He Ho. pose proof (domain k bs Hk Hbs) as H. split_checks H.
+  intros Hk Hbs He Ho. pose proof (domain lis k m bs Hk Hbs) as H. split_checks H.
   unfold chk_hang in Hc4. rewrite Ho, He in Hc4. discriminate.
 Qed.
 
 (* nothing but GRPCError / StreamTerminatedError escapes, except in the classes D2c, D2d *)
-Lemma only_grpc_errors_partial k bs e :
-  In k all_kinds -> In bs (cases_of 2 k) -> d2c k bs = false -> d2d k bs = false ->
-  outcome k bs = RExc e ->
+Lemma only_grpc_errors_partial lis k m bs e :
+  In (lis, k, m) configs -> In bs (cases_of (lis, k, m)) -> d2c k bs = false -> d2d k bs = false ->
+  outcome lis k bs = RExc e ->
   e <> XProtocol /\ e <> XAssertion /\ (forall b, e <> XMetadata b).
 Proof.
-  intros Hk Hbs Hdc Hdd Ho. pose proof (domain k bs Hk Hbs) as H. split_checks H.
+  intros Hk Hbs Hdc Hdd Ho. pose proof (domain lis k m bs Hk Hbs) as H. split_checks H.
   unfold chk_exc in Hc3. rewrite Ho in Hc3.
   split; [|split; [|intros b]]; intros ->; rewrite ?Hdc, ?Hdd in Hc3; discriminate.
 Qed.
 
-Lemma never_stuck k bs : In k all_kinds -> In bs (cases_of 2 k) -> outcome k bs <> RStuck.
+Lemma never_stuck lis k m bs : In (lis, k, m) configs -> In bs (cases_of (lis, k, m)) -> outcome lis k bs <> RStuck.
 Proof.
-  intros Hk Hbs Ho. pose proof (domain k bs Hk Hbs) as H. split_checks H.
+  intros Hk Hbs Ho. pose proof (domain lis k m bs Hk Hbs) as H. split_checks H.
   unfold chk_exc in Hc3. rewrite Ho in Hc3. discriminate.
 Qed.
 
-Lemma enumerated_scripts_wf k bs : In k all_kinds -> In bs (cases_of 2 k) -> wf_script bs = true.
-Proof. intros Hk Hbs. pose proof (domain k bs Hk Hbs) as H. split_checks H. exact H. Qed.
+Lemma enumerated_scripts_wf lis k m bs : In (lis, k, m) configs -> In bs (cases_of (lis, k, m)) -> wf_script bs = true.
+Proof. intros Hk Hbs. pose proof (domain lis k m bs Hk Hbs) as H. split_checks H. exact H. Qed.
 
 Lemma raises_eq r e : raises r e = true -> r = RExc e.
 Proof.
@@ -548,54 +573,54 @@ Proof.
 Qed.
 
 (* rows with their exact outcome *)
-Lemma row_non200 k bs :
-  In k all_kinds -> In bs (cases_of 2 k) -> row_non200_hyp k bs = true ->
-  outcome k bs = RExc XHttpStatus.
+Lemma row_non200 lis k m bs :
+  In (lis, k, m) configs -> In bs (cases_of (lis, k, m)) -> row_non200_hyp k bs = true ->
+  outcome lis k bs = RExc XHttpStatus.
 Proof.
-  intros Hk Hbs Hh. pose proof (domain k bs Hk Hbs) as H. split_checks H.
+  intros Hk Hbs Hh. pose proof (domain lis k m bs Hk Hbs) as H. split_checks H.
   unfold chk_row_non200 in Hc2. rewrite Hh in Hc2. apply raises_eq. exact Hc2.
 Qed.
 
-Lemma row_server_trailers k bs :
-  In k all_kinds -> In bs (cases_of 2 k) -> row_server_trl_hyp k bs = true ->
-  outcome k bs = RExc (XServer BTrl).
+Lemma row_server_trailers lis k m bs :
+  In (lis, k, m) configs -> In bs (cases_of (lis, k, m)) -> row_server_trl_hyp k bs = true ->
+  outcome lis k bs = RExc (XServer BTrl).
 Proof.
-  intros Hk Hbs Hh. pose proof (domain k bs Hk Hbs) as H. split_checks H.
+  intros Hk Hbs Hh. pose proof (domain lis k m bs Hk Hbs) as H. split_checks H.
   unfold chk_row_server in Hc1. apply andb_true_iff in Hc1 as [H1 _]. rewrite Hh in H1.
   apply raises_eq. exact H1.
 Qed.
 
-Lemma row_server_headers k bs :
-  In k all_kinds -> In bs (cases_of 2 k) -> row_server_hdr_hyp k bs = true ->
-  outcome k bs = RExc (XServer BHdr).
+Lemma row_server_headers lis k m bs :
+  In (lis, k, m) configs -> In bs (cases_of (lis, k, m)) -> row_server_hdr_hyp k bs = true ->
+  outcome lis k bs = RExc (XServer BHdr).
 Proof.
-  intros Hk Hbs Hh. pose proof (domain k bs Hk Hbs) as H. split_checks H.
+  intros Hk Hbs Hh. pose proof (domain lis k m bs Hk Hbs) as H. split_checks H.
   unfold chk_row_server in Hc1. apply andb_true_iff in Hc1 as [_ H2]. rewrite Hh in H2.
   apply raises_eq. exact H2.
 Qed.
 
-Lemma row_nothing k bs :
-  In k all_kinds -> In bs (cases_of 2 k) -> row_nothing_hyp k bs = true ->
-  outcome k bs = RExc XTerminated.
+Lemma row_nothing lis k m bs :
+  In (lis, k, m) configs -> In bs (cases_of (lis, k, m)) -> row_nothing_hyp k bs = true ->
+  outcome lis k bs = RExc XTerminated.
 Proof.
-  intros Hk Hbs Hh. pose proof (domain k bs Hk Hbs) as H. split_checks H.
+  intros Hk Hbs Hh. pose proof (domain lis k m bs Hk Hbs) as H. split_checks H.
   unfold chk_row_nothing in Hc0. rewrite Hh in Hc0. apply raises_eq. exact Hc0.
 Qed.
 
-Lemma row_success k bs :
-  In k all_kinds -> In bs (cases_of 2 k) -> row_success_hyp k bs = true ->
-  exists n, outcome k bs = ROk n.
+Lemma row_success lis k m bs :
+  In (lis, k, m) configs -> In bs (cases_of (lis, k, m)) -> row_success_hyp k bs = true ->
+  exists n, outcome lis k bs = ROk n.
 Proof.
-  intros Hk Hbs Hh. pose proof (domain k bs Hk Hbs) as H. split_checks H.
+  intros Hk Hbs Hh. pose proof (domain lis k m bs Hk Hbs) as H. split_checks H.
   unfold chk_row_success in Hc. rewrite Hh in Hc. cbn [implb] in Hc.
-  destruct (outcome k bs) as [n| | |]; try discriminate. exists n. reflexivity.
+  destruct (outcome lis k bs) as [n| | |]; try discriminate. exists n. reflexivity.
 Qed.
 
-Lemma row_missing_status k bs :
-  In k all_kinds -> In bs (cases_of 2 k) -> row_missing_status_hyp k bs = true ->
-  outcome k bs = RExc (XBadGrpcStatus BTrl).
+Lemma row_missing_status lis k m bs :
+  In (lis, k, m) configs -> In bs (cases_of (lis, k, m)) -> row_missing_status_hyp k bs = true ->
+  outcome lis k bs = RExc (XBadGrpcStatus BTrl).
 Proof.
-  intros Hk Hbs Hh. pose proof (domain k bs Hk Hbs) as H. split_checks H.
+  intros Hk Hbs Hh. pose proof (domain lis k m bs Hk Hbs) as H. split_checks H.
   unfold chk_row_missing_status in Hc7. rewrite Hh in Hc7. apply raises_eq. exact Hc7.
 Qed.
 
@@ -608,15 +633,15 @@ Definition one (es : list aevent) : list batch := [{| b_trig := TB; b_events := 
 (* D2c: malformed user -bin metadata in an otherwise perfect OK response: binascii.Error escapes *)
 Lemma d2c_refuted :
   let bs := one [AH (H_ok GsAbsent MdBad) false; AD false; AT (T_of GsOk)] in
-  wf_script bs = true /\ outcome (Call false false) bs = RExc (XMetadata BHdr) /\
-  spec_allows bs (outcome (Call false false) bs) = false.
+  wf_script bs = true /\ outcome no_listeners (Call false false) bs = RExc (XMetadata BHdr) /\
+  spec_allows bs (outcome no_listeners (Call false false) bs) = false.
 Proof. vm_compute. repeat split. Qed.
 
 (* D2d: grpc-status OK without a message on a unary-reply call: AssertionError escapes *)
 Lemma d2d_refuted :
   let bs := one [AH (H_ok GsOk MdOk) true] in
-  wf_script bs = true /\ outcome (Call false false) bs = RExc XAssertion /\
-  spec_allows bs (outcome (Call false false) bs) = false.
+  wf_script bs = true /\ outcome no_listeners (Call false false) bs = RExc XAssertion /\
+  spec_allows bs (outcome no_listeners (Call false false) bs) = false.
 Proof. vm_compute. repeat split. Qed.
 
 (* (repaired D2e) the response ends with END_STREAM on DATA or on the HEADERS, no trailers: the call
@@ -625,10 +650,10 @@ Lemma end_stream_without_trailers :
   let bs := one [AH (H_ok GsAbsent MdOk) false; AD true] in
   let bs' := one [AH (H_ok GsAbsent MdOk) true] in
   wf_script bs = true /\ ev_ended (events bs) = true /\
-  outcome (Call false false) bs = RExc (XBadGrpcStatus BTrl) /\
-  outcome (Call false true) bs = RExc (XBadGrpcStatus BTrl) /\
-  outcome (Call false false) bs' = RExc (XBadGrpcStatus BTrl) /\
-  outcome (Open false true [RI; IT]) bs' = RExc (XBadGrpcStatus BTrl) /\
+  outcome no_listeners (Call false false) bs = RExc (XBadGrpcStatus BTrl) /\
+  outcome no_listeners (Call false true) bs = RExc (XBadGrpcStatus BTrl) /\
+  outcome no_listeners (Call false false) bs' = RExc (XBadGrpcStatus BTrl) /\
+  outcome no_listeners (Open false true [RI; IT]) bs' = RExc (XBadGrpcStatus BTrl) /\
   spec_allows bs (RExc (XBadGrpcStatus BTrl)) = true.
 Proof. vm_compute. repeat split. Qed.
 
@@ -641,26 +666,48 @@ Lemma closing_before_exit :
              {| b_trig := TS 1; b_events := [AT (T_of GsErr); AGoaway] |}] in
   let done := [{| b_trig := TB; b_events := [AH (H_ok GsAbsent MdOk) false; AD false; AT (T_of GsOk)] |};
                {| b_trig := TS 3; b_events := [AGoaway] |}] in
-  wf_script bs = true /\ outcome (Open false false [RM]) bs = RExc (XServer BTrl) /\
-  outcome (Open false false []) [{| b_trig := TS 0; b_events := [ALost] |}] = RExc XTerminated /\
-  outcome (Open false false [RI; RM; RT]) done = ROk 1.
+  wf_script bs = true /\ outcome no_listeners (Open false false [RM]) bs = RExc (XServer BTrl) /\
+  outcome no_listeners (Open false false []) [{| b_trig := TS 0; b_events := [ALost] |}] = RExc XTerminated /\
+  outcome no_listeners (Open false false [RI; RM; RT]) done = ROk 1.
 Proof. vm_compute. repeat split. Qed.
 
 (* D2g: text/html with grpc-status in the headers, then RST_STREAM: the server's status, not UNKNOWN *)
 Lemma d2g_refuted :
   let bs := one [AH {| hi_st := S200; hi_ct := CtBad; hi_gs := GsErr; hi_md := MdOk |} false; ARst] in
-  wf_script bs = true /\ outcome (Call false false) bs = RExc (XServer BHdr) /\
-  spec_allows bs (outcome (Call false false) bs) = false /\
+  wf_script bs = true /\ outcome no_listeners (Call false false) bs = RExc (XServer BHdr) /\
+  spec_allows bs (outcome no_listeners (Call false false) bs) = false /\
   (* without the reset the same headers give UNKNOWN, as the statement says *)
-  outcome (Call false false) (one [AH {| hi_st := S200; hi_ct := CtBad; hi_gs := GsErr; hi_md := MdOk |} false])
+  outcome no_listeners (Call false false) (one [AH {| hi_st := S200; hi_ct := CtBad; hi_gs := GsErr; hi_md := MdOk |} false])
   = RExc XContentType.
+Proof. vm_compute. repeat split. Qed.
+
+(* the cut arrives while a RecvTrailingMetadata / RecvMessage / RecvInitialMetadata listener is
+   suspended: the operation ends in StreamTerminatedError, __aexit__ upgrades it to the status that had
+   arrived (recv_trailing_metadata sets its done-flag BEFORE it dispatches, so an upgrade that skipped
+   "already received" trailers would lose the status) *)
+Lemma cut_during_listener :
+  let resp := [{| b_trig := TB; b_events := [AH (H_ok GsAbsent MdOk) false; AD false; AT (T_of GsErr)] |}] in
+  let lt := {| l_init := false; l_msg := false; l_trail := true |} in
+  outcome lt (Call false false) (resp ++ [{| b_trig := TL; b_events := [ALost] |}]) = RExc (XServer BTrl) /\
+  outcome lt (Open true true [RI; IT; RT]) (resp ++ [{| b_trig := TL; b_events := [ARst] |}])
+  = RExc (XServer BTrl) /\
+  outcome all_listeners (Call false true)
+          [{| b_trig := TB; b_events := [AH (H_ok GsErr MdOk) false] |}; {| b_trig := TL; b_events := [AGoaway] |}]
+  = RExc (XServer BHdr) /\
+  outcome all_listeners (Call true false)
+          [{| b_trig := TB; b_events := [AH (H_ok GsAbsent MdOk) false; AD false] |};
+           {| b_trig := TL; b_events := [ALost] |}]
+  = RExc XTerminated /\
+  (* without a listener the same TL batch only arrives once the client blocks: the call completes *)
+  outcome no_listeners (Call false false) (resp ++ [{| b_trig := TL; b_events := [ALost] |}])
+  = RExc (XServer BTrl).
 Proof. vm_compute. repeat split. Qed.
 
 (* the full-strength table is therefore false on the enumerated domain *)
 Lemma table_refuted :
-  exists k bs, In k all_kinds /\ wf_script bs = true /\ spec_allows bs (outcome k bs) = false.
+  exists lis k m bs, In (lis, k, m) configs /\ wf_script bs = true /\ spec_allows bs (outcome lis k bs) = false.
 Proof.
-  exists (Call false false), (one [AH (H_ok GsOk MdOk) true]).
+  exists no_listeners, (Call false false), 2%nat, (one [AH (H_ok GsOk MdOk) true]).
   split; [left; reflexivity|]. vm_compute. split; reflexivity.
 Qed.
 
@@ -784,33 +831,55 @@ Ltac weq_good :=
              rewrite (good_final_weq (pop_msg s) s bs (weq_pop_msg s))
          end.
 
-Lemma recv_initial_safe s bs : good (final s bs) = true -> safe (recv_initial s bs).
+Lemma listen_then_safe {A} on s bs (k : state -> list batch -> step A) :
+  good (final s bs) = true ->
+  (forall s' bs', good (final s' bs') = true -> safe (k s' bs')) ->
+  safe (listen_then on s bs k).
+Proof.
+  intros Hg Hk. unfold listen_then. destruct on; [|apply Hk; exact Hg].
+  destruct bs as [|b r]; [apply Hk; exact Hg|].
+  destruct (b_trig b); try (apply Hk; exact Hg).
+  assert (Hf : final (apply_batch b s) r = final s (b :: r)) by reflexivity.
+  destruct (werr (apply_batch b s)); [cbn [safe]|apply Hk]; rewrite Hf; exact Hg.
+Qed.
+
+Lemma recv_initial_safe lis s bs : good (final s bs) = true -> safe (recv_initial lis s bs).
 Proof.
   intros Hg. unfold recv_initial.
   destruct (ri_done s); [exact Hg|]. destruct (werr s) eqn:Hw; [exact Hg|].
   destruct (wait has_hdr s bs) as [s' bs'|s' bs'|] eqn:Ewait.
   - apply wait_ready in Ewait as [Ef _]. rewrite <- Ef in Hg.
     destruct (hdr s') as [h|]; [|exact I].
-    destruct (hi_st h), (hi_ct h), (hi_gs h), (hi_md h); cbn [safe]; weq_good; exact Hg.
+    assert (Hg1 : good (final (set_ri s') bs') = true) by (weq_good; exact Hg).
+    assert (Hg2 : good (final (set_tonly (set_ri s')) bs') = true) by (weq_good; exact Hg).
+    destruct (hi_st h); [|exact Hg1]. destruct (hi_ct h); try exact Hg1.
+    destruct (hi_gs h).
+    + destruct (hi_md h); [|exact Hg1]. apply listen_then_safe; [exact Hg1|]. intros s3 bs3 H3. exact H3.
+    + apply listen_then_safe; [exact Hg2|]. intros s2 bs2 H2.
+      destruct (hi_md h); [|exact H2]. apply listen_then_safe; [exact H2|]. intros s3 bs3 H3. exact H3.
+    + apply listen_then_safe; [exact Hg2|]. intros s2 bs2 H2.
+      destruct (hi_md h); [|exact H2]. apply listen_then_safe; [exact H2|]. intros s3 bs3 H3. exact H3.
+    + apply listen_then_safe; [exact Hg2|]. intros s2 bs2 H2. exact H2.
   - apply wait_term in Ewait. cbn [safe]. rewrite Ewait. exact Hg.
   - apply (wait_hang _ _ _ Hw) in Ewait as [Hc Hwf].
     rewrite (good_cond has_hdr _ (or_introl eq_refl) Hg Hwf) in Hc. discriminate.
 Qed.
 
-Lemma recv_message_safe s bs : good (final s bs) = true -> safe (recv_message s bs).
+Lemma recv_message_safe lis s bs : good (final s bs) = true -> safe (recv_message lis s bs).
 Proof.
   intros Hg. unfold recv_message. apply safe_bind.
   - destruct (ri_done s); [exact Hg|]. apply recv_initial_safe. exact Hg.
-  - clear. intros _ s bs Hg. destruct (werr s) eqn:Hw; [exact Hg|].
+  - clear s bs Hg. intros _ s bs Hg. destruct (werr s) eqn:Hw; [exact Hg|].
     destruct (wait data_ready s bs) as [s' bs'|s' bs'|] eqn:Ewait.
     + apply wait_ready in Ewait as [Ef _]. rewrite <- Ef in Hg.
-      destruct (0 <? Z.of_nat (q s')); cbn [safe]; weq_good; exact Hg.
+      destruct (0 <? Z.of_nat (q s')); [|exact Hg].
+      apply listen_then_safe; [weq_good; exact Hg|]. intros s3 bs3 H3. exact H3.
     + apply wait_term in Ewait. cbn [safe]. rewrite Ewait. exact Hg.
     + apply (wait_hang _ _ _ Hw) in Ewait as [Hc Hwf].
       rewrite (good_cond data_ready _ (or_intror (or_introl eq_refl)) Hg Hwf) in Hc. discriminate.
 Qed.
 
-Lemma recv_trailing_safe s bs : good (final s bs) = true -> safe (recv_trailing s bs).
+Lemma recv_trailing_safe lis s bs : good (final s bs) = true -> safe (recv_trailing lis s bs).
 Proof.
   intros Hg. unfold recv_trailing.
   destruct (negb (ri_done s)); [exact Hg|]. destruct (rt_done s); [exact Hg|].
@@ -818,21 +887,23 @@ Proof.
   destruct (werr s) eqn:Hw; [exact Hg|].
   destruct (wait trl_ready s bs) as [s' bs'|s' bs'|] eqn:Ewait.
   - apply wait_ready in Ewait as [Ef _]. rewrite <- Ef in Hg.
-    destruct (trl s') as [t|]; [|cbn [safe]; weq_good; exact Hg].
-    destruct (ti_gs t), (ti_md t); cbn [safe]; weq_good; exact Hg.
+    assert (Hg1 : good (final (set_rt s') bs') = true) by (weq_good; exact Hg).
+    destruct (trl s') as [t|]; [|exact Hg1].
+    destruct (ti_gs t); try exact Hg1; (destruct (ti_md t); [|exact Hg1]);
+      (apply listen_then_safe; [exact Hg1|]); intros s3 bs3 H3; exact H3.
   - apply wait_term in Ewait. cbn [safe]. rewrite Ewait. exact Hg.
   - apply (wait_hang _ _ _ Hw) in Ewait as [Hc Hwf].
     rewrite (good_cond trl_ready _ (or_intror (or_intror eq_refl)) Hg Hwf) in Hc. discriminate.
 Qed.
 
-Lemma iterate_safe fuel : forall n s bs, good (final s bs) = true -> safe (iterate fuel n s bs).
+Lemma iterate_safe lis fuel : forall n s bs, good (final s bs) = true -> safe (iterate lis fuel n s bs).
 Proof.
   induction fuel as [|f IH]; intros n s bs Hg; cbn [iterate]; [exact I|].
   apply safe_bind; [apply recv_message_safe; exact Hg|].
   intros got s1 bs1 Hg1. destruct got; [apply IH; exact Hg1|exact Hg1].
 Qed.
 
-Lemma run_op_safe fuel o got s bs : good (final s bs) = true -> safe (run_op fuel o got s bs).
+Lemma run_op_safe lis fuel o got s bs : good (final s bs) = true -> safe (run_op lis fuel o got s bs).
 Proof.
   intros Hg. destruct o; cbn [run_op].
   - apply safe_bind; [apply recv_initial_safe; exact Hg|]. intros _ s1 bs1 H. exact H.
@@ -846,15 +917,16 @@ Lemma deliver_before_final k : forall bs s s' bs',
 Proof.
   induction bs as [|b r IH]; intros s s' bs' H; cbn [deliver_before] in H.
   - injection H as <- <-. reflexivity.
-  - destruct (b_trig b) as [|k'].
+  - destruct (b_trig b) as [|k'|].
     + injection H as <- <-. reflexivity.
     + destruct (Nat.leb k' k).
       * apply IH in H. unfold final at 2. cbn [fold_left]. exact H.
       * injection H as <- <-. reflexivity.
+    + injection H as <- <-. reflexivity.
 Qed.
 
-Lemma run_prog_safe fuel : forall ops k got s bs,
-  good (final s bs) = true -> safe (run_prog fuel k ops got s bs).
+Lemma run_prog_safe lis fuel : forall ops k got s bs,
+  good (final s bs) = true -> safe (run_prog lis fuel k ops got s bs).
 Proof.
   induction ops as [|o r IH]; intros k got s bs Hg; cbn [run_prog];
     destruct (deliver_before k s bs) as [s0 bs0] eqn:Ed;
@@ -863,7 +935,7 @@ Proof.
   - apply safe_bind; [apply run_op_safe; exact Hg|]. intros g s1 bs1 H. apply IH. exact H.
 Qed.
 
-Lemma maybe_finish_safe s bs : good (final s bs) = true -> safe (maybe_finish s bs).
+Lemma maybe_finish_safe lis s bs : good (final s bs) = true -> safe (maybe_finish lis s bs).
 Proof.
   intros Hg. unfold maybe_finish.
   apply safe_bind.
@@ -871,19 +943,19 @@ Proof.
   - intros _ s1 bs1 H. destruct (rt_done s1); [exact H|]. apply recv_trailing_safe. exact H.
 Qed.
 
-Lemma finish_no_hang {A} (body : step A) (ok : A -> result) :
-  safe body -> (forall a, ok a <> RHang) -> finish body ok <> RHang.
+Lemma finish_no_hang {A} lis (body : step A) (ok : A -> result) :
+  safe body -> (forall a, ok a <> RHang) -> finish lis body ok <> RHang.
 Proof.
   intros Hs Hok. destruct body as [a s bs|e s bs| |]; cbn [finish safe] in *.
-  - unfold aexit. pose proof (maybe_finish_safe s bs Hs) as Hm.
-    destruct (maybe_finish s bs) as [u s' bs'|e s' bs'| |]; cbn [safe] in Hm;
+  - unfold aexit. pose proof (maybe_finish_safe lis s bs Hs) as Hm.
+    destruct (maybe_finish lis s bs) as [u s' bs'|e s' bs'| |]; cbn [safe] in Hm;
       [apply Hok|discriminate|contradiction|discriminate].
   - cbn [aexit]. discriminate.
   - contradiction.
   - discriminate.
 Qed.
 
-Lemma outcome_no_hang k bs : good (final init bs) = true -> outcome k bs <> RHang.
+Lemma outcome_no_hang lis k bs : good (final init bs) = true -> outcome lis k bs <> RHang.
 Proof.
   intros Hg. destruct k as [cs [|]|cs ss prog]; cbn [outcome]; apply finish_no_hang.
   - apply iterate_safe. exact Hg.
@@ -1016,13 +1088,14 @@ Qed.
 
 Lemma cw_init : cw init. Proof. unfold cw. cbn. discriminate. Qed.
 
-(* THE liveness theorem: for every kind of call, every body of an open() context and every delivery
+(* THE liveness theorem: for every kind of call, every body of an open() context, every set of suspending
+   listeners and every delivery
    schedule -- once the response was effectively cut (GOAWAY, connection loss, RST_STREAM before
    END_STREAM), or is well-formed and ends in END_STREAM (on the headers, on DATA or on trailers), the
    call finishes *)
-Lemma no_hang_general k bs :
+Lemma no_hang_general lis k bs :
   ev_cut (events bs) false = true \/ (wf_script bs = true /\ ev_ended (events bs) = true) ->
-  outcome k bs <> RHang.
+  outcome lis k bs <> RHang.
 Proof.
   intros H. apply outcome_no_hang. rewrite final_events. destruct H as [Hcut|[Hwf Ht]].
   - apply werr_good. apply (cut_sets_werr _ _ false cw_init); [|exact Hcut]. cbn. discriminate.
